@@ -492,11 +492,29 @@ func checkWriters(cs *drv.Case, v cval, want []byte) bool {
 		return fail("inplace-writer-outside", fmt.Sprintf("wrote outside the buffer at offset %d", off))
 	}
 	pre := gen.Bytes(cs.R, cs.R.Intn(9))
-	buf := make([]byte, len(pre), len(pre)+cs.R.Intn(2*len(want)+2))
+	spare := cs.R.Intn(2*len(want) + 2)
+	if cs.R.Intn(3) == 0 {
+		spare = len(want) + 1 + cs.R.Intn(24) // room for the value and live bytes of the caller behind it
+	}
+	buf := make([]byte, len(pre), len(pre)+spare)
 	copy(buf, pre)
+	// the spare capacity is live memory of the caller (a slot reserved in a longer buffer): an append writes
+	// exactly the appended bytes, nothing behind them
+	full := buf[:cap(buf)]
+	for i := len(pre); i < len(full); i++ {
+		full[i] = 0xA5 ^ byte(i)
+	}
 	out := v.appendTo(buf)
 	if len(out) != len(pre)+len(want) || !bytes.Equal(out[:len(pre)], pre) || !bytes.Equal(out[len(pre):], want) {
 		return fail("append-writer", fmt.Sprintf("appended %s", hexOf(out[minInt(len(pre), len(out)):])))
+	}
+	if len(pre)+len(want) <= len(full) { // the value fitted: it was written in place
+		for i := len(pre) + len(want); i < len(full); i++ {
+			if full[i] != 0xA5^byte(i) {
+				return fail("append-writer-beyond", fmt.Sprintf("appending %d bytes changed the byte %d positions behind them in the caller's buffer", len(want), i-len(pre)-len(want)))
+			}
+		}
+		cs.C.Obs("appends into live spare capacity checked", 1)
 	}
 	return true
 }
